@@ -391,6 +391,19 @@ impl<'tcx> Cx<'tcx> {
                 o.push(("item", jn(self.def(uv.def))));
                 if let Some(p) = uv.promoted {
                     o.push(("promoted", jn(p.as_usize())));
+                } else if uv.args.is_empty() || !uv.args.has_non_region_param() {
+                    // closed constant of integer type (e.g. i64::MAX): evaluate it
+                    if ty.is_integral() || ty.is_bool() {
+                        if let Some(si) = c.const_.try_eval_scalar_int(self.tcx, TypingEnv::fully_monomorphized()) {
+                            let size = si.size();
+                            let bits = si.to_bits(size);
+                            if matches!(ty.kind(), ty::Int(_)) {
+                                o.push(("int", js(size.sign_extend(bits).to_string())));
+                            } else {
+                                o.push(("int", js(bits.to_string())));
+                            }
+                        }
+                    }
                 }
             }
             mir::Const::Val(v, _) => {
